@@ -10,10 +10,25 @@ C11 — thread safety of the JIT memory manager.
 (c) `atomic_ops_linearise` (proved once, generic): if every operation is one atomic critical section (what (a) gives),
     every interleaving of any number of threads is a sequential history - so an invariant of the sequential machine
     (C09's `Inv`) and every per-operation guarantee hold under every schedule.
+(d) the instance: C09's sequential allocator (`JitAlloc.step`) as the critical section and the lock-free prefix of `alloc` as the
+    pre-phase (Model/JitConc.lean).  For ANY number of threads, ANY programs and ANY schedule:
+    `jit_allocator_inv_under_every_schedule` (C09's invariant `Inv` and all its corollaries hold in the state reached),
+    `jit_schedule_is_sequential_history` (state and answers are those of C09's model on the completion order),
+    `jit_monitor_accepts_every_schedule` (C09's independent monitor accepts what the threads observed - "with the guarantees of
+    C09"), `jit_program_order` (each thread's operations complete in its program order).
+(e) independent code generation shares nothing: over the symbol tables and relocation records of the object files of the current
+    tree (Gen/StaticRefs.lean, tools/gen_statics.py): `all_writable_statics_reviewed`, `no_thread_locals`,
+    `only_reviewed_accessors_touch_statics`, `codegen_units_share_nothing`.
+(f) `program_order_sublist`: the decidable check the driver runs on a recorded lock-order history (Spec/JitTrace.lean) does imply
+    that each thread's own log is a subsequence of the history.
 -/
 import AsmjitVerif.Gen.LockMap
 import AsmjitVerif.Gen.Globals
+import AsmjitVerif.Gen.StaticRefs
 import AsmjitVerif.Lemmas.Linearise
+import AsmjitVerif.Model.JitConc
+import AsmjitVerif.Spec.JitTrace
+import AsmjitVerif.Props.C09Refine
 namespace AsmjitVerif.LockMap
 
 /-- records that are shared between threads through one allocator / runtime -/
@@ -68,12 +83,69 @@ def allowedGlobals : List String :=
     "asmjit::VirtMem::generate_random_bits(unsigned long, unsigned int)::internal_counter",
     "asmjit::VirtMem::has_hardened_runtime()::cached_hardened_flag",
     "asmjit::VirtMem::get_anonymous_memory_strategy(asmjit::VirtMem::AnonymousMemoryStrategy*)::cached_strategy",
-    -- the verification hook H1 itself (exists only with -DASMJIT_VERIF; null unless a harness sets it)
-    "asmjit_verif_arena_fail" ]
+    -- found by the section-based listing (a GNU-unique symbol, invisible to the nm letters b/B/d/D): a `static volatile uint32_t`
+    -- that is set to 1 (idempotent) when the kernel answers ENOSYS to memfd_create - init-once, never written on this kernel
+    "asmjit::VirtMem::AnonymousMemory::open(bool)::memfd_create_not_supported",
+    -- the verification hooks H1 / H2 themselves (exist only with -DASMJIT_VERIF; null unless a harness sets them)
+    "asmjit_verif_arena_fail", "asmjit_verif_jit_event" ]
 
 /-- there is no other mutable global: threads that use their own holders/emitters share nothing writable -/
 theorem no_mutable_globals : ∀ g ∈ mutableGlobals, allowedGlobals.contains g = true := by
   decide +kernel
+
+/-! ### (e) machine code and static storage (Gen/StaticRefs.lean) -/
+
+/-- variables of the verification hooks: null unless a harness sets them before any thread starts -/
+def hookVars : List String := ["asmjit_verif_arena_fail", "asmjit_verif_jit_event"]
+
+/-- name of a function without its parameter list -/
+def fnBase (f : String) : String := String.ofList (f.toList.takeWhile (· != '('))
+
+/-- the reviewed init-once accessors: the only functions whose machine code may refer to writable static storage.
+(`open` and `alloc_dual_mapping` contain the inlined bodies of `get_mfd_exec_flag`, `generate_random_bits` and
+`get_anonymous_memory_strategy`; `hardened_runtime_info` that of `has_hardened_runtime`.) -/
+def accessorFns : List (String × String) :=
+  [("asmjit/core/cpuinfo.cpp", "asmjit::CpuInfo::host"),
+   ("asmjit/core/virtmem.cpp", "asmjit::VirtMem::info"),
+   ("asmjit/core/virtmem.cpp", "asmjit::VirtMem::large_page_size"),
+   ("asmjit/core/virtmem.cpp", "asmjit::VirtMem::hardened_runtime_info"),
+   ("asmjit/core/virtmem.cpp", "asmjit::VirtMem::has_hardened_runtime"),
+   ("asmjit/core/virtmem.cpp", "asmjit::VirtMem::get_mfd_exec_flag"),
+   ("asmjit/core/virtmem.cpp", "asmjit::VirtMem::generate_random_bits"),
+   ("asmjit/core/virtmem.cpp", "asmjit::VirtMem::get_anonymous_memory_strategy"),
+   ("asmjit/core/virtmem.cpp", "asmjit::VirtMem::AnonymousMemory::open"),
+   ("asmjit/core/virtmem.cpp", "asmjit::VirtMem::alloc_dual_mapping")]
+
+/-- translation units that hold the init-once caches; every other unit (CodeHolder, emitters, Builder, Compiler, register
+allocator, formatter, instruction databases, arena and containers, JIT allocator and runtime) is "code generation" here -/
+def cacheUnits : List String := ["asmjit/core/cpuinfo.cpp", "asmjit/core/virtmem.cpp"]
+
+/-- every object that lives in a writable data section of any translation unit - whatever its binding (local, global, weak,
+GNU-unique) - is on the reviewed list -/
+theorem all_writable_statics_reviewed : ∀ o ∈ writableObjects, allowedGlobals.contains o.2 = true := by
+  decide +kernel
+
+/-- nothing is thread-local either (no hidden per-thread caches whose first use could differ between threads) -/
+theorem no_thread_locals : threadLocals = [] := by
+  decide +kernel
+
+/-- every reference from machine code into a writable data section is made by a reviewed init-once accessor or names a hook
+variable -/
+theorem only_reviewed_accessors_touch_statics :
+    ∀ r ∈ staticRefs, hookVars.contains r.2.2 = true ∨ accessorFns.contains (r.1, fnBase r.2.1) = true := by
+  decide +kernel
+
+/-- **Threads that use their own holders/emitters/compilers share nothing**: outside cpuinfo.cpp / virtmem.cpp no machine
+code of the library refers to writable static storage at all (hook variables aside) - only to constant tables -/
+theorem codegen_units_share_nothing :
+    ∀ r ∈ staticRefs, cacheUnits.contains r.1 = false → hookVars.contains r.2.2 = true := by
+  decide +kernel
+
+/-- non-vacuity: the listing does see the init-once caches and their accessor -/
+example : ("asmjit/core/cpuinfo.cpp", "asmjit::CpuInfo::host()", "asmjit::CpuInfo::host()::cpu_info_global") ∈ staticRefs := by
+  decide +kernel
+example : ("asmjit/core/virtmem.cpp", "asmjit::VirtMem::info()::vm_info") ∈ writableObjects := by decide +kernel
+example : fnBase "asmjit::CpuInfo::host()" = "asmjit::CpuInfo::host" := by decide
 
 end AsmjitVerif.LockMap
 
@@ -155,4 +227,168 @@ theorem program_order (m : Machine σ Cfg Op A Out) (cfg : Cfg) (sched : List Na
         have : (u == t) = false := by simpa using hut
         simpa [List.filter_cons, this] using ih'
 
+/-- the same with the hypothesis only about critical sections that a thread can actually reach: `a` is the pre-phase result of
+some operation (threads are well formed) -/
+theorem invariant_under_every_schedule_wf (m : Machine σ Cfg Op A Out) (cfg : Cfg) (Inv : σ → Prop)
+    (hstep : ∀ s op, Inv s → Inv (m.crit s (m.pre cfg op)).1) (sched : List Nat) :
+    ∀ (s : σ) (ths : List (Thread Op A)), WellFormed m cfg ths → Inv s → Inv (runSched m cfg s ths sched).1 := by
+  induction sched with
+  | nil => intro s ths _ h; exact h
+  | cons t sched ih =>
+    intro s ths wf h
+    simp only [runSched]
+    have wf' := stepThread_wf m cfg s ths t wf
+    rcases stepThread_cases m cfg s ths t with ⟨ths', h'⟩ | ⟨th, a, op, rest, hth, hp, htodo, h'⟩
+    · rw [h'] at wf' ⊢
+      exact ih _ _ wf' h
+    · rw [h'] at wf' ⊢
+      obtain ⟨op', rest', h1, h2⟩ := wf th (List.mem_of_getElem? hth) a hp
+      subst h2
+      exact ih _ _ wf' (hstep s op' h)
+
 end AsmjitVerif.Linearise
+
+/-! ### (d) the allocator of C09 under every schedule -/
+namespace AsmjitVerif.JitConc
+open AsmjitVerif.JitAlloc AsmjitVerif.Linearise
+
+/-- the lock-free prefix followed by the critical section is exactly C09's sequential step (with the statistics after it) -/
+theorem crit_pre (s : St) (op : Op) :
+    crit s (pre s.a.cfg op) = ((step s op).1, (step s op).2, (step s op).1.a.stats) := by
+  cases op with
+  | alloc req =>
+    by_cases h0 : alignUp req s.a.cfg.gran = 0
+    · simp [pre, crit, step, Alloc.alloc, afterAlloc, h0]
+    · by_cases h1 : alignUp req s.a.cfg.gran - 1 ≥ 2147483647
+      · simp [pre, crit, step, Alloc.alloc, afterAlloc, h0, h1]
+      · simp only [pre, crit, step, Alloc.alloc, afterAlloc, h0, h1, if_false]
+        rcases s.a.allocIn (alignUp req s.a.cfg.gran) with ⟨a, (e | sp)⟩ <;> rfl
+  | _ => rfl
+
+/-- threads that have not started are well formed -/
+theorem threadsOf_wf (cfg : Config) (progs : List (List Op)) : WellFormed jitMachine cfg (threadsOf progs) := by
+  intro th hth a ha
+  simp only [threadsOf, List.mem_map] at hth
+  obtain ⟨p, _, rfl⟩ := hth
+  simp at ha
+
+/-- replaying a completion order atomically IS running C09's model on it: same final state, and the observable trace is C09's
+`trace` (operation, answer, statistics) -/
+theorem runSeq_is_model (cfg : Config) : ∀ (l : List (Nat × Op)) (s : St), Inv s → s.a.cfg = cfg →
+    (runSeq jitMachine cfg s l).1 = finalState s (l.map (·.2)) ∧
+    observed (runSeq jitMachine cfg s l).2 = trace s (l.map (·.2)) := by
+  intro l
+  induction l with
+  | nil => intro s _ _; exact ⟨rfl, rfl⟩
+  | cons x rest ih =>
+    intro s hI hc
+    obtain ⟨t, op⟩ := x
+    have hcp : jitMachine.crit s (jitMachine.pre cfg op) = ((step s op).1, (step s op).2, (step s op).1.a.stats) := by
+      subst hc; exact crit_pre s op
+    obtain ⟨ih1, ih2⟩ := ih (step s op).1 (hI.step op) (by rw [step_cfg hI op]; exact hc)
+    constructor
+    · simp only [runSeq, hcp, List.map_cons, finalState]
+      exact ih1
+    · simp only [runSeq, hcp, List.map_cons, observed] at ih2 ⊢
+      simp only [trace, run, List.zip_cons_cons] at ih2 ⊢
+      rw [ih2]
+
+/-- **Every schedule is a sequential history of C09's model.**  Any number of threads (`progs`: one list of operations per
+thread), any schedule: the allocator state reached and everything the threads observed (answers and the statistics read under
+the lock) are exactly what C09's sequential model produces on the order in which the critical sections completed. -/
+theorem jit_schedule_is_sequential_history (opts gran blockSize pattern : Nat) (progs : List (List Op)) (sched : List Nat) :
+    let cfg := mkConfig opts gran blockSize pattern
+    let r := runSched jitMachine cfg (St.init cfg) (threadsOf progs) sched
+    r.1 = finalState (St.init cfg) (r.2.2.map (·.op)) ∧
+    observed r.2.2 = trace (St.init cfg) (r.2.2.map (·.op)) := by
+  intro cfg r
+  have hl := atomic_ops_linearise jitMachine cfg sched (St.init cfg) (threadsOf progs) (threadsOf_wf cfg progs)
+  have hm := runSeq_is_model cfg (r.2.2.map fun d => (d.tid, d.op)) (St.init cfg)
+    (Inv.init cfg (mkConfig_wf opts gran blockSize pattern)) rfl
+  rw [hl] at hm
+  simpa [List.map_map, Function.comp_def] using hm
+
+/-- **C09's invariant under every schedule** (directly by the invariant rule: every reachable critical section preserves
+`Inv` and the immutable configuration) -/
+theorem jit_allocator_inv_under_every_schedule (opts gran blockSize pattern : Nat) (progs : List (List Op)) (sched : List Nat) :
+    Inv (runSched jitMachine (mkConfig opts gran blockSize pattern) (St.init (mkConfig opts gran blockSize pattern))
+      (threadsOf progs) sched).1 := by
+  have h := invariant_under_every_schedule_wf jitMachine (mkConfig opts gran blockSize pattern)
+    (fun s => Inv s ∧ s.a.cfg = mkConfig opts gran blockSize pattern)
+    (by
+      intro s op ⟨hI, hc⟩
+      have hcp : jitMachine.crit s (jitMachine.pre (mkConfig opts gran blockSize pattern) op) =
+          ((step s op).1, (step s op).2, (step s op).1.a.stats) := by rw [← hc]; exact crit_pre s op
+      rw [hcp]
+      exact ⟨hI.step op, by rw [step_cfg hI op]; exact hc⟩)
+    sched (St.init _) (threadsOf progs) (threadsOf_wf _ progs) ⟨Inv.init _ (mkConfig_wf opts gran blockSize pattern), rfl⟩
+  exact h.1
+
+/-- the state after any schedule is a sequentially reachable state: every theorem of Props/C09*.lean about reachable states
+(disjointness, alignment, exact bit vectors and statistics, contents kept, fill pattern, retention …) applies to it -/
+theorem jit_state_reachable_under_every_schedule (opts gran blockSize pattern : Nat) (progs : List (List Op)) (sched : List Nat) :
+    ReachableC (runSched jitMachine (mkConfig opts gran blockSize pattern) (St.init (mkConfig opts gran blockSize pattern))
+      (threadsOf progs) sched).1 :=
+  ⟨opts, gran, blockSize, pattern, _, (jit_schedule_is_sequential_history opts gran blockSize pattern progs sched).1⟩
+
+/-- **With the guarantees of C09**: what the threads of any schedule observe is accepted by C09's independent monitor
+(disjoint, aligned, large enough spans; query answers; exact statistics; reuse; retention policy) -/
+theorem jit_monitor_accepts_every_schedule (opts gran blockSize pattern : Nat) (progs : List (List Op)) (sched : List Nat) :
+    Spec.monitor (Spec.Ghost.init (mkConfig opts gran blockSize pattern))
+      (observed (runSched jitMachine (mkConfig opts gran blockSize pattern) (St.init (mkConfig opts gran blockSize pattern))
+        (threadsOf progs) sched).2.2) = none := by
+  rw [(jit_schedule_is_sequential_history opts gran blockSize pattern progs sched).2]
+  exact model_accepted_by_spec opts gran blockSize pattern _
+
+/-- each thread's operations complete in its program order: the completion trace restricted to thread `t` is a prefix of the
+program thread `t` was given -/
+theorem jit_program_order (cfg : Config) (s : St) (progs : List (List Op)) (sched : List Nat) (t : Nat) :
+    (((runSched jitMachine cfg s (threadsOf progs) sched).2.2.filter (fun d => d.tid == t)).map (·.op)) <+: progs.getD t [] := by
+  have h := program_order jitMachine cfg sched t s (threadsOf progs)
+  have e : todoOf (threadsOf progs) t = progs.getD t [] := by
+    simp only [todoOf, threadsOf, List.getElem?_map, List.getD_eq_getElem?_getD]
+    cases progs[t]? <;> rfl
+  rw [e] at h
+  exact h
+
+/-! non-vacuity: two threads, two schedules of the same programs - different completion orders, different answers, and the
+theorems above apply to both -/
+def exProgs : List (List Op) := [[.alloc 100, .query 0 0], [.alloc 64]]
+def exCfg : Config := mkConfig 0 0 0 0
+def exRun (sched : List Nat) := runSched jitMachine exCfg (St.init exCfg) (threadsOf exProgs) sched
+
+example : (exRun [0, 1, 1, 0, 0, 0]).2.2.map (·.tid) = [1, 0, 0] := by decide +kernel
+example : (exRun [0, 0, 1, 1, 0, 0]).2.2.map (·.tid) = [0, 1, 0] := by decide +kernel
+/-- the answers are computed by C09's model on the shared state: thread 0's allocation lands behind thread 1's when thread 1
+wins the lock -/
+def offOf (d : Done Op (Ans × Stats)) : Nat := match d.out.1 with | .span sp => sp.off | _ => 0
+set_option maxRecDepth 100000 in
+example : (exRun [1, 1, 0, 0]).2.2.map offOf = [64, 128] := by decide +kernel
+/-- the pre-phase is not the identity: it aligns and it rejects -/
+example : pre exCfg (.alloc 100) = .allocIn 128 ∧ pre exCfg (.alloc 0) = .reject .InvalidArgument := by decide
+
+end AsmjitVerif.JitConc
+
+/-! ### (f) the program-order check of the driver -/
+namespace AsmjitVerif.JitTrace
+
+/-- if the driver's check passes, every thread's own log (operations with the results the caller saw, in program order) is a
+subsequence of the lock-order history, and nothing else of that thread is in the history -/
+theorem program_order_sublist (threads : Nat) (lin po : List LinEv) (h : programOrderOk threads lin po = true) (t : Nat)
+    (ht : t < threads) : (ofThread t po).Sublist lin ∧ ofThread t lin = ofThread t po := by
+  simp only [programOrderOk, Bool.and_eq_true, Option.isNone_iff_eq_none] at h
+  obtain ⟨⟨h1, _⟩, _⟩ := h
+  have h2 := List.find?_eq_none.mp h1 t (List.mem_range.mpr ht)
+  have h3 : (ofThread t lin == ofThread t po && seqFrom 0 (ofThread t po)) = true := by simpa using h2
+  simp only [Bool.and_eq_true, beq_iff_eq] at h3
+  refine ⟨?_, h3.1⟩
+  rw [← h3.1]
+  exact List.filter_sublist
+
+example : programOrderOk 2 [⟨0, 0, "a"⟩, ⟨1, 0, "b"⟩, ⟨0, 1, "c"⟩] [⟨0, 0, "a"⟩, ⟨0, 1, "c"⟩, ⟨1, 0, "b"⟩] = true := by decide
+/-- swapped within a thread, a result that differs from what the caller saw, a critical section the thread never logged -/
+example : programOrderOk 2 [⟨0, 1, "c"⟩, ⟨1, 0, "b"⟩, ⟨0, 0, "a"⟩] [⟨0, 0, "a"⟩, ⟨0, 1, "c"⟩, ⟨1, 0, "b"⟩] = false := by decide
+example : programOrderOk 2 [⟨0, 0, "a"⟩, ⟨1, 0, "x"⟩] [⟨0, 0, "a"⟩, ⟨1, 0, "b"⟩] = false := by decide
+example : programOrderOk 2 [⟨0, 0, "a"⟩, ⟨1, 0, "b"⟩] [⟨0, 0, "a"⟩] = false := by decide
+
+end AsmjitVerif.JitTrace
